@@ -484,4 +484,6 @@ def run(repo='/repo', tier='quick'):
     res.assumptions += ['full absence of undefined behaviour for every input is not decided (no relational bounds / heap-shape prover is available offline); each clause is a necessary condition',
                         'user callbacks are opaque and do not free what they are handed; a callback that destroys the completed transaction inside TRANSACTION_COMPLETE is outside what the rules model',
                         'index arithmetic by small constants does not wrap']
+    from . import retain
+    retain.run(db, res)
     return res
